@@ -145,3 +145,47 @@ func init() {
 		Replay: disCompileReplay,
 	})
 }
+
+// disDeadBranchOracle: "every reference to the name is a compile error unless the script itself declared
+// a variable of that name" also for references in code that can never run (constant conditions that
+// the optimizer removes before the compiler resolves the names); and in no case may the bytecode
+// contain the builtin.
+func disDeadBranchOracle(c *Ctx) {
+	forms := []struct{ name, src string }{
+		{"if-const-false", "if 1 > 2 { T(\"a\") }\nreturn 1"},
+		{"if-false-else", "if false { return T } else { return 2 }"},
+		{"cond-expr", "return 1 > 2 ? T(\"a\") : 7"},
+		{"and-false", "return false && T(1)"},
+		{"or-true", "return true || T(1)"},
+		{"for-false", "for false { T() }\nreturn 1"},
+		{"func-never-called", "f := func() { return T(\"a\") }\nreturn 1"},
+		{"after-return", "return 1\nT(\"a\")"},
+	}
+	for _, t := range []string{"len", "string", "typeName", "println", "append"} {
+		for _, f := range forms {
+			for _, noOpt := range []bool{false, true} {
+				src := strings.ReplaceAll(f.src, "T", t)
+				st := ugo.NewSymbolTable()
+				st.DisableBuiltin(t)
+				c.dist["oracle:disabled-dead-branch"]++
+				bc, err := disCompile(src, ugo.CompilerOptions{SymbolTable: st, NoOptimize: noOpt})
+				if err != nil {
+					if !strings.Contains(err.Error(), "unresolved reference") {
+						c.Violation(PropViolation{"C13", "a reference to the disabled builtin " + t + " in dead code fails with another error: " + disFirstLine(err.Error()), src, "C13:wrong-error:dead-branch:" + f.name})
+					}
+					continue
+				}
+				if l := disScan(bc, []string{t}); len(l) > 0 {
+					c.Violation(PropViolation{"C13", "bytecode contains GETBUILTIN of disabled " + strings.Join(l, ","), src, "C13:getbuiltin:dead-branch:" + f.name})
+					continue
+				}
+				opt := "opt"
+				if noOpt {
+					opt = "noopt"
+				}
+				c.Violation(PropViolation{"C13", fmt.Sprintf("a script referencing the disabled builtin %s (never declared by the script) in code that cannot run compiles (NoOptimize=%v); the bytecode does not contain the builtin", t, noOpt), src,
+					"C13:ref-compiled:dead-branch:" + f.name + ":" + opt})
+			}
+		}
+	}
+}
